@@ -13,7 +13,8 @@ From GT Require Import Base.UTree Spec.Obs Model.Reroot Model.Outgroup Spec.Unro
      Proofs.OutgroupMain Proofs.OutgroupSide Proofs.OutgroupRemove Proofs.OutgroupRemoveMain
      Proofs.OutgroupMidpoint Proofs.OutgroupMidDist Proofs.OutgroupMlp Proofs.OutgroupHalf
      Proofs.OutgroupHalfMain Proofs.OutgroupSplits Proofs.OutgroupSplitsMain Proofs.OutgroupMidErr
-     Proofs.OutgroupTies Proofs.OutgroupWitness Proofs.OracleC05 Proofs.OutgroupRemoveSplits.
+     Proofs.OutgroupTies Proofs.OutgroupWitness Proofs.OracleC05 Proofs.OutgroupRemoveSplits
+     Proofs.OutgroupTwoTip Proofs.OutgroupNeg.
 From GT Require Import Base.Sexp Judge.Common.
 Import ListNotations.
 Local Close Scope Q_scope.
@@ -486,7 +487,7 @@ Theorem C05_midpoint_halfway :
     reroot_midpoint t = Ok t' ->
     exists a b d da db,
       In (a, b, d) (pairdists elen t) /\
-      (forall x, In x (pairdists elen t) -> (snd x <= d)%Q) /\
+      (forall x, In x (pairdists elen t) -> (snd x <= d)%Q) /\ (0 < d)%Q /\
       In (a, da) (depths elen t') /\ In (b, db) (depths elen t') /\
       (da == d * (1 # 2))%Q /\ (db == d * (1 # 2))%Q.
 Proof. exact reroot_midpoint_halfway. Qed.
@@ -612,6 +613,7 @@ Print Assumptions C05_mlp_first.
     has the largest length ([ecc t1 pn l]: the longest path from the tip [pn] has length [l]) *)
 Theorem C05_midpoint_first_tip :
   forall t t',
+    2 <= degree (unroot t) ->
     reroot_midpoint t = Ok t' ->
     let t1 := unroot t in
     exists d1 q lf d2 v pA cur ea,
@@ -722,3 +724,59 @@ Theorem C05_outgroup_remove_splits :
       Forall2 (restr_of L1 (leaves t') Rm) kept kept'.
 Proof. exact reroot_outgroup_remove_splits. Qed.
 Print Assumptions C05_outgroup_remove_splits.
+
+(** * (k) the domain has no hole: a well-formed tree whose root has at least two neighbours
+    either satisfies the hypothesis [rooted t -> root_has_inner_child t] of the theorems above, or
+    is the rooted two-tip tree (a:x,b:y), on which the two functions do this: *)
+Theorem C05_domain_cases :
+  forall t, wf t = true -> 2 <= degree t ->
+    (rooted t = true -> root_has_inner_child t = true) \/ two_tip t.
+Proof. exact domain_cases. Qed.
+Print Assumptions C05_domain_cases.
+
+(** RerootOutGroup refuses it (fewer than 3 tips) *)
+Theorem C05_outgroup_two_tip :
+  forall remove strict t names, two_tip t ->
+    reroot_outgroup remove strict t names = Err "cannot reroot on an outgroup a tree with less than 3 tips"%string.
+Proof. exact outgroup_two_tip. Qed.
+Print Assumptions C05_outgroup_two_tip.
+
+(** RerootMidPoint gives (a:l/2,b:l/2) with l = x + y, or one of its two refusals *)
+Theorem C05_midpoint_two_tip :
+  forall n0 c0 e1 n1 c1 e2 n2 c2,
+    let t := UNode n0 c0 [Some (e1, UNode n1 c1 [None]); Some (e2, UNode n2 c2 [None])] in
+    let l := merge_len (elen e1) (elen e2) in
+    let cut := (l - qhalf l)%Q in
+    reroot_midpoint t =
+    if qeqb l nilv then Err "some branches have no length"%string
+    else if qltb 0 l
+         then Ok (UNode "" [] [Some (mkE (l - cut)%Q nilv nilv [], UNode n1 c1 [None]);
+                               Some (mkE cut nilv nilv [], UNode n2 c2 [None])])
+         else Err "cannot reroot at midpoint: all tip to tip paths have a null length"%string.
+Proof. exact midpoint_two_tip. Qed.
+Print Assumptions C05_midpoint_two_tip.
+
+Theorem C05_midpoint_two_tip_ok :
+  forall n0 c0 e1 n1 c1 e2 n2 c2 t',
+    let t := UNode n0 c0 [Some (e1, UNode n1 c1 [None]); Some (e2, UNode n2 c2 [None])] in
+    let l := merge_len (elen e1) (elen e2) in
+    reroot_midpoint t = Ok t' ->
+    (0 < l)%Q /\
+    exists ea eb, t' = UNode "" [] [Some (ea, UNode n1 c1 [None]); Some (eb, UNode n2 c2 [None])] /\
+                  (elen ea == l * (1 # 2))%Q /\ (elen eb == l * (1 # 2))%Q /\
+                  wf t' = true /\ leaves t' = leaves t /\
+                  (len0 ea + len0 eb == len0 e1 + len0 e2)%Q.
+Proof. exact midpoint_two_tip_ok. Qed.
+Print Assumptions C05_midpoint_two_tip_ok.
+
+(** * (l) negative lengths other than the "absent" code -1 are outside the property ("trees with
+    branch lengths"): a separating branch of length -2 is cut into two halves of length -1, which
+    read as absent, so its split keeps no length -- the reason for [good_len] in (f) *)
+Theorem C05_outgroup_negative_length_refuted :
+  exists t names t' k,
+    wf t = true /\ 3 <= degree t /\ rooted t = false /\ NoDup (leaves t) /\
+    (exists x, In x (bsplits t) /\ ~ good_len (fst (fst x))) /\
+    reroot_outgroup false true t names = Ok t' /\
+    ~ orel split_weq (find_split k (usplits t')) (find_split k (usplits (unroot t))).
+Proof. exact outgroup_negative_length_refuted. Qed.
+Print Assumptions C05_outgroup_negative_length_refuted.
